@@ -1,2 +1,231 @@
-/- placeholder driver for C08: replaced when the check for C08 is built -/
-def main : IO Unit := IO.println "not-built"
+import CashewsVerif.Driver.Proto
+import CashewsVerif.Model.Key
+/-
+Driver for C08.  Stateful lines (`sig`, `tmpl`, `ctx`) select the function signature, the template
+and the key context; `call` lines are answered with the model's key and bindings; `text` lines
+with the rendering of one value.  Text travels hex-encoded (UTF-8).
+
+  sig <n> (<kind p|k|s|w> <name-hex> (- | <value>))*n          -> ok
+  tmpl auto <module-hex> <name-hex> <qualname-hex> <m> <excluded-name-hex>*m-> tmpl=<format string, hex> sep=<0|1>
+  tmpl ex <m> (L:<hex> | F:<hex>)*m                            -> tmpl=<format string, hex> sep=<0|1>
+  ctx <0|1 rewrite> <m> (<name-hex> <value>)*m                 -> ok
+  call <n> <value>*n <m> (<name-hex> <value>)*m                -> key=<hex|E> path=<F|S|E> b=<bound|E> p=<bound|E> d=<bound|E> q=<bound|E>
+  text <value>                                                 -> fast=<hex> slow=<hex> sty=<scalar type|->
+  value := s:<hex> | i:<int> | b:0 | b:1 | n | y:<hex> | t:<n> value*n | d:<n> (k:<key-hex> value)*n
+-/
+open CashewsVerif CashewsVerif.Proto CashewsVerif.KeyModel
+
+def hexVal (c : Char) : Option Nat :=
+  if '0' ≤ c && c ≤ '9' then some (c.toNat - 48)
+  else if 'a' ≤ c && c ≤ 'f' then some (c.toNat - 87)
+  else none
+
+def unhex : List Char → Option (List Nat)
+  | [] => some []
+  | a :: b :: r => do
+    let x ← hexVal a
+    let y ← hexVal b
+    let t ← unhex r
+    pure ((x * 16 + y) :: t)
+  | _ => none
+
+/-- hex of UTF-8 -> text -/
+def strOfHex (s : String) : Option Str := do
+  let bs ← unhex s.toList
+  let ba := ByteArray.mk (bs.map UInt8.ofNat).toArray
+  let str ← String.fromUTF8? ba
+  pure str.toList
+
+def hexOfStr (s : Str) : String :=
+  String.ofList (hexOf ((String.ofList s).toUTF8.toList.map UInt8.toNat))
+
+/-- parse one value from the token stream (fuel = number of tokens, every step consumes one) -/
+def parseVal : Nat → List String → Option (PyVal × List String)
+  | 0, _ => none
+  | _, [] => none
+  | fuel + 1, tok :: rest =>
+    if tok = "n" then some (.none, rest)
+    else match tok.splitOn ":" with
+      | ["s", h] => (strOfHex h).map fun s => (.str s, rest)
+      | ["i", x] => x.toInt?.map fun i => (.int i, rest)
+      | ["b", "0"] => some (.bool false, rest)
+      | ["b", "1"] => some (.bool true, rest)
+      | ["y", h] => (unhex h.toList).map fun bs => (.bytes bs, rest)
+      | ["t", n] => do
+        let n ← n.toNat?
+        let (vs, rest') ← many fuel n rest
+        pure (.tuple vs, rest')
+      | ["d", n] => do
+        let n ← n.toNat?
+        let (kvs, rest') ← manyKv fuel n rest
+        pure (.dict kvs, rest')
+      | _ => none
+where
+  many (fuel : Nat) : Nat → List String → Option (List PyVal × List String)
+    | 0, ts => some ([], ts)
+    | n + 1, ts => do
+      let (v, ts') ← parseVal fuel ts
+      let (vs, ts'') ← many fuel n ts'
+      pure (v :: vs, ts'')
+  manyKv (fuel : Nat) : Nat → List String → Option (Dict × List String)
+    | 0, ts => some ([], ts)
+    | _ + 1, [] => none
+    | n + 1, k :: ts => do
+      let k ← (match k.splitOn ":" with
+        | ["k", h] => strOfHex h
+        | _ => none)
+      let (v, ts') ← parseVal fuel ts
+      let (kvs, ts'') ← manyKv fuel n ts'
+      pure ((k, v) :: kvs, ts'')
+
+def pVal (ts : List String) : Option (PyVal × List String) := parseVal (ts.length + 1) ts
+
+def pVals : Nat → List String → Option (List PyVal × List String)
+  | 0, ts => some ([], ts)
+  | n + 1, ts => do
+    let (v, ts') ← pVal ts
+    let (vs, ts'') ← pVals n ts'
+    pure (v :: vs, ts'')
+
+def pKvs : Nat → List String → Option (Dict × List String)
+  | 0, ts => some ([], ts)
+  | _ + 1, [] => none
+  | n + 1, k :: ts => do
+    let k ← strOfHex k
+    let (v, ts') ← pVal ts
+    let (kvs, ts'') ← pKvs n ts'
+    pure ((k, v) :: kvs, ts'')
+
+def pKind (s : String) : Option Kind :=
+  if s = "p" then some .pos else if s = "k" then some .kwOnly
+  else if s = "s" then some .varPos else if s = "w" then some .varKw else none
+
+def pParams : Nat → List String → Option (Sig × List String)
+  | 0, ts => some ([], ts)
+  | n + 1, k :: nm :: ts => do
+    let kind ← pKind k
+    let name ← strOfHex nm
+    let (d, ts') ← (match ts with
+      | "-" :: r => some (none, r)
+      | _ => (pVal ts).map fun (v, r) => (some v, r))
+    let (ps, ts'') ← pParams n ts'
+    pure ({ name := name, kind := kind, dflt := d } :: ps, ts'')
+  | _, _ => none
+
+def pNames : Nat → List String → Option (List Str × List String)
+  | 0, ts => some ([], ts)
+  | _ + 1, [] => none
+  | n + 1, t :: ts => do
+    let s ← strOfHex t
+    let (r, ts') ← pNames n ts
+    pure (s :: r, ts')
+
+def pItems : List String → Option Tmpl
+  | [] => some []
+  | t :: ts => do
+    let it ← (match t.splitOn ":" with
+      | ["L", h] => (strOfHex h).map Item.lit
+      | ["F", h] => (strOfHex h).map Item.field
+      | _ => none)
+    let r ← pItems ts
+    pure (it :: r)
+
+mutual
+  def encVal : PyVal → List String
+    | .str s => ["s:" ++ hexOfStr s]
+    | .int i => ["i:" ++ toString i]
+    | .bool b => [if b then "b:1" else "b:0"]
+    | .none => ["n"]
+    | .bytes bs => ["y:" ++ String.ofList (hexOf bs)]
+    | .tuple vs => ("t:" ++ toString vs.length) :: encVals vs
+    | .dict kvs => ("d:" ++ toString kvs.length) :: encKvs kvs
+  def encVals : List PyVal → List String
+    | [] => []
+    | v :: r => encVal v ++ encVals r
+  def encKvs : List (Str × PyVal) → List String
+    | [] => []
+    | (k, v) :: r => ("k:" ++ hexOfStr k) :: (encVal v ++ encKvs r)
+end
+
+def encBVal : BVal → List String
+  | .one v => encVal v
+  | .star vs => encVal (.tuple vs)
+  | .kw kvs => encVal (.dict kvs)
+
+def encBound : Option Bound → String
+  | none => "E"
+  | some b => "[" ++ ",".intercalate (b.map fun (n, v) => hexOfStr n ++ "=" ++ ".".intercalate (encBVal v)) ++ "]"
+
+def scalarTy : PyVal → String
+  | .str _ => "str" | .int _ => "int" | .bool _ => "bool" | .none => "none" | .bytes _ => "bytes"
+  | .tuple _ => "tuple" | .dict _ => "dict"
+
+structure St where
+  sig : Sig := []
+  tmpl : Tmpl := []
+  ctx : Ctx := {}
+
+def step (st : St) (line : String) : St × String :=
+  match words line with
+  | "sig" :: n :: ts =>
+    match n.toNat? with
+    | none => (st, "bad-op")
+    | some n =>
+      match pParams n ts with
+      | some (ps, []) => ({ st with sig := ps }, "ok")
+      | _ => (st, "bad-op")
+  | "tmpl" :: "auto" :: mod :: name :: qual :: m :: ts =>
+    match strOfHex mod, strOfHex name, strOfHex qual, m.toNat? with
+    | some mod, some name, some qual, some m =>
+      match pNames m ts with
+      | some (ex, []) =>
+        let t := autoTemplate mod name qual ex st.sig
+        ({ st with tmpl := t }, "tmpl=" ++ hexOfStr t.toFormat ++ (if separated t then " sep=1" else " sep=0"))
+      | _ => (st, "bad-op")
+    | _, _, _, _ => (st, "bad-op")
+  | "tmpl" :: "ex" :: m :: ts =>
+    match m.toNat?, pItems ts with
+    | some m, some t => if t.length = m then ({ st with tmpl := t }, "tmpl=" ++ hexOfStr t.toFormat ++ (if separated t then " sep=1" else " sep=0")) else (st, "bad-op")
+    | _, _ => (st, "bad-op")
+  | "ctx" :: rw :: m :: ts =>
+    match m.toNat? with
+    | none => (st, "bad-op")
+    | some m =>
+      match pKvs m ts with
+      | some (kvs, []) =>
+        if rw = "0" then ({ st with ctx := { vals := kvs, rewrite := false } }, "ok")
+        else if rw = "1" then ({ st with ctx := { vals := kvs, rewrite := true } }, "ok")
+        else (st, "bad-op")
+      | _ => (st, "bad-op")
+  | "call" :: n :: ts =>
+    match n.toNat? with
+    | none => (st, "bad-op")
+    | some n =>
+      match pVals n ts with
+      | some (args, m :: ts') =>
+        match m.toNat? with
+        | none => (st, "bad-op")
+        | some m =>
+          match pKvs m ts' with
+          | some (kw, []) =>
+            let c : Call := { args := args, kwargs := kw }
+            let key := match cacheKey st.sig st.tmpl st.ctx c with
+              | some k => hexOfStr k
+              | none => "E"
+            let path := match callValues st.sig c with
+              | some vals =>
+                let all := withCtx st.ctx vals
+                if fastPath st.tmpl all then "F" else "S"
+              | none => "E"
+            let b := bind false st.sig c
+            let p := bind true st.sig c
+            (st, s!"key={key} path={path} b={encBound b} p={encBound p} d={encBound (b.map (applyDefaults st.sig))} q={encBound (p.map (applyDefaults st.sig))}")
+          | _ => (st, "bad-op")
+      | _ => (st, "bad-op")
+  | "text" :: ts =>
+    match pVal ts with
+    | some (v, []) => (st, s!"fast={hexOfStr (typeFmt v)} slow={hexOfStr (fmtField v)} sty={scalarTy v}")
+    | _ => (st, "bad-op")
+  | _ => (st, "bad-op")
+
+def main : IO Unit := mainLoop step {}
